@@ -24,10 +24,16 @@ import core
 from runner import Case
 
 THEOREMS = [
-    "C11.bwf_init", "C11.bwf_step", "C11.bwf_run", "C11.two_slots_always",
-    "C11.slot_move", "C11.parent_first_empty", "C11.parent_full_rej",
-    "C11.delChildren_empties_both", "C11.reject_loops",
-    "C11.rejected_unchanged", "C11.prefix_deleter_breaks_two_slots",
+    "C11.bwf_init", "C11.bwf_step", "C11.bwf_run", "C11.bwf_reachable", "C11.two_slots_always",
+    "C11.slot_holds_child", "C11.one_slot_of_parent",
+    "C11.slot_move", "C11.slot_move_left", "C11.slot_move_parent",
+    "C11.parent_first_empty", "C11.parent_left_before_right", "C11.parent_full_rej",
+    "C11.delChildren_empties_both", "C11.sort_effect",
+    "C11.reject_loops", "C11.reject_loops_children", "C11.rejected_unchanged",
+    "C11.prefix_deleter_breaks_two_slots",
+    # shared lemmas the above rest on (also re-exported for C02 / C20, BinaryNode part)
+    "BinStore.setParent_rej_id", "BinStore.setChildren_rej_id", "BinStore.step_rej_id",
+    "BinStore.anc_complete", "BinStore.acyc_reparent",
 ]
 PROOF_IMPORTS = ["BigtreeProofs.Properties.C11"]
 HANDLER = "C11"
@@ -719,7 +725,13 @@ ASSUMPTIONS = [
     "object identity <-> equality of ids; exceptions by kind (ok/rej), messages not modelled",
     "node names play no role for BinaryNode links (the BinaryNode parent setter never runs Node's duplicate-path hook)",
 ]
-NOT_READY = True
-LEVEL_TEXT = ""
-LEVEL_NOTE = ""
-TECHNIQUE = ""
+NOT_READY = False
+LEVEL_TEXT = ("proof: Lean 4 kernel-checked invariant BWF (two raw slots, each node in exactly one slot of its parent and of "
+              "nobody else, acyclic, ids in range) over every history of parent/children/left/right/del/sort on the "
+              "statement-level model of binarynode.py, for every argument (None, non-node, self, ancestor, repeated member, "
+              "any list length) and every hook fault; effect theorems slot_move, parent_first_empty, parent_full_rej, "
+              "delChildren_empties_both, sort_effect; rejected calls leave the store unchanged")
+LEVEL_NOTE = ("the model is hand-written and tied to /repo by the correspondence check: every transition from every binary "
+              "forest reachable on <=3 (quick) / <=4 (thorough) nodes, plus random histories on 4-8 nodes, compared after "
+              "every call (outcome, parent, len(children), left, right of every node)")
+TECHNIQUE = "machine-checked proof (Lean 4) of an invariant + effect lemmas on an executable model; differential correspondence check against the real BinaryNode"
